@@ -15,6 +15,31 @@ U = 16
 HUGE = 1 << 26
 NOLIM = 1 << 30
 FMAX = sys.float_info.max
+FAR = 1 << 27
+NEAR = 1 << 20
+# integers beyond 2^53 are python ints everywhere (never floats): anchor + offset, see Datatypes.tla
+ANCHORS = {-2: -(1 << 64), -1: -(1 << 63), 0: 0, 1: 1 << 53, 2: 10 ** 18, 3: 1 << 63, 4: 1 << 64}
+
+
+def pos_int(a, d):
+    """position -> the python int (a representative for the 'far' class)"""
+    if abs(d) == FAR:
+        return ANCHORS[a] + (1 << 40) * (1 if d > 0 else -1)
+    return ANCHORS[a] + d
+
+
+def int_pos(n):
+    """python int -> position (a, d): exact near an anchor, else the class 'far above anchor a'"""
+    if abs(n) < HUGE:
+        return 0, n
+    keys = sorted(ANCHORS)
+    if n < ANCHORS[keys[0]] - NEAR:
+        return keys[0], -FAR
+    for a in keys:
+        if abs(n - ANCHORS[a]) <= NEAR:
+            return a, n - ANCHORS[a]
+    below = max(a for a in keys if ANCHORS[a] < n)
+    return below, FAR
 
 NONE = {'j': 'none'}
 
@@ -57,6 +82,8 @@ def build_type(dt):
                              None if dt['max'] == NOLIM else dt['max'] / U, **kw)
     if k == 'int':
         return fd.IntRange(dt['min'], dt['max'])
+    if k == 'bigint':
+        return fd.IntRange(pos_int(dt['min']['a'], dt['min']['d']), pos_int(dt['max']['a'], dt['max']['d']))
     if k == 'scaled':
         kw = {}
         if 'abs' in dt and dt['abs'] != dt['scale']:
@@ -138,6 +165,8 @@ def concrete(c, dt=None, obj=None, internal=False):
         if abs(c['n']) >= HUGE:
             return (1 << 80) * (1 if c['n'] > 0 else -1)
         return c['n']
+    if j == 'bint':
+        return pos_int(c['a'], c['d'])
     if j == 'num':
         t = c['t']
         if abs(t) >= HUGE:
@@ -196,9 +225,19 @@ def num_abs(x):
 
 
 def int_abs(n):
-    if abs(n) >= HUGE:
+    """python int -> abstract (no float anywhere): small, anchored big integer, or beyond all anchors"""
+    if abs(n) < HUGE:
+        return {'j': 'int', 'n': n}
+    if n > ANCHORS[4] + NEAR or n < ANCHORS[-2] - NEAR:
         return {'j': 'int', 'n': HUGE if n > 0 else -HUGE}
-    return {'j': 'int', 'n': n}
+    a, d = int_pos(n)
+    return {'j': 'bint', 'a': a, 'd': d}
+
+
+def bint_abs(n):
+    """python int as a value of a bigint type: always a position"""
+    a, d = int_pos(n)
+    return {'j': 'bint', 'a': a, 'd': d}
 
 
 def str_abs(s, literal=False):
@@ -293,9 +332,17 @@ def alpha(res, dt, ac, conc, pa=None, pconc=None):
     if isinstance(res, EnumMember):
         return {'j': 'member', 'n': res.value, 'name': res.name}
     if isinstance(res, int):
-        a = int_abs(res)
-        if abs(res) >= HUGE and not _same_number(res, conc):
-            return ALTERED
+        if dt is not None and dt['k'] == 'bigint':
+            a = bint_abs(res)
+            lossy = abs(a['d']) == FAR
+        else:
+            # for a type with small limits every big integer is the class +-HUGE
+            a = {'j': 'int', 'n': res} if abs(res) < HUGE else {'j': 'int', 'n': HUGE if res > 0 else -HUGE}
+            if dt is None and abs(res) >= HUGE:
+                a = int_abs(res)
+            lossy = abs(res) >= HUGE and (a['j'] == 'int' or abs(a['d']) == FAR)
+        if lossy and not _same_number(res, conc):
+            return ALTERED       # a class only stands for the very integer that was offered
         return a
     if isinstance(res, float):
         if abs(res) == FMAX and not _same_number(res, conc):
@@ -444,6 +491,8 @@ def cand_class(dt, c):
         return 'num-huge' if abs(c['t']) >= HUGE else 'num-whole' if c['w'] else 'num-frac'
     if j == 'int':
         return 'int-huge' if abs(c['n']) >= HUGE else 'int'
+    if j == 'bint':
+        return 'int-big'
     if j == 'special':
         return 'nan' if c['s'] == 'nan' else 'inf'
     if j == 'str':
@@ -509,6 +558,8 @@ def show(v):
         return '%g%s' % (v['t'] / U, '~' if v['ix'] else '')
     if j == 'int':
         return 'int %d' % v['n']
+    if j == 'bint':
+        return 'int %s' % _pos_text(v)
     if j == 'bool':
         return str(v['b'])
     if j == 'str':
@@ -528,6 +579,13 @@ def show(v):
     return str(j)
 
 
+def _pos_text(p):
+    name = {-2: '-2^64', -1: '-2^63', 0: '0', 1: '2^53', 2: '10^18', 3: '2^63', 4: '2^64'}[p['a']]
+    if abs(p['d']) == FAR:
+        return name + ('++' if p['d'] > 0 else '--')
+    return name + ('%+d' % p['d'] if p['d'] else '')
+
+
 def show_outcome(o):
     return ('Ok ' + show(o['v'])) if o['ok'] else o['e']
 
@@ -539,6 +597,8 @@ def show_type(dt):
                                                  '-' if dt['max'] == NOLIM else dt['max'] / U, dt['abs'] / U, dt['rel'] / 8)
     if k == 'int':
         return 'int(%d..%d)' % (dt['min'], dt['max'])
+    if k == 'bigint':
+        return 'int(%s..%s)' % (_pos_text(dt['min']), _pos_text(dt['max']))
     if k == 'scaled':
         return 'scaled(%g,%g..%g)' % (dt['scale'] / U, dt['min'] / U, dt['max'] / U)
     if k == 'enum':
@@ -559,8 +619,9 @@ def show_type(dt):
 # ------------------------------------------------------- seeded random types and values
 
 NAMES = ['a', 'b', 'off', 'on', 'x', 'idle', 'busy']
-WEIRD_NUM = [1e308, -1e308, 5e-324, -5e-324, 1e-300, 0.1, -0.1, -0.0, 1.5e300, 2.0 ** 53 + 2, FMAX, -FMAX,
-             math.nan, math.inf, -math.inf, 2 ** 70, -(2 ** 63), 3 * 2 ** 80, 2 ** 31, 1e22, 123456.789, 1 / 3]
+WEIRD_NUM = [1e308, -1e308, 5e-324, -5e-324, 1e-300, 0.1, -0.1, -0.0, 1.5e300, FMAX, -FMAX,
+             math.nan, math.inf, -math.inf, 2 ** 70, -(2 ** 63), 3 * 2 ** 80, 2 ** 31, 1e22, 123456.789, 1 / 3,
+             2 ** 53 + 1, 2 ** 63 - 1, 2 ** 64 - 1, 10 ** 18 + 1, -(2 ** 63) - 1, 2 ** 64, 2 ** 53 - 1]
 TEXTS = ['', 'a', '5', 'abc', 'é', 'a\0b', 'x' * 1000, '"quoted"', 'back\\slash', 'new\nline', '日本語', 'zz', '1.5', 'NaN',
          'YWJj', '!!!!YWJj', 'YWJ', 'YQ==', 'YQ==YQ==', 'AAEC', '  ', "it's", 'True', '[1]', 'ä' * 40]
 JUNK = [None, True, False, [], {}, [1], {'a': 1}, [[1]], {'a': None}, 'abc', 5, 1.5, [None], {'zz': 1}, [[], []]]
@@ -571,8 +632,8 @@ def is_literal(s):
     return 0 < len(s) <= 12 and all(ch.isalnum() or ch in '=!+/-.' for ch in s) and s.isascii()
 
 
-def rand_type(rnd, depth, open_strings=False):
-    kinds = ['double', 'int', 'scaled', 'bool', 'enum', 'string', 'blob']
+def rand_type(rnd, depth, open_strings=False, big=True):
+    kinds = ['double', 'int', 'scaled', 'bool', 'enum', 'string', 'blob'] + (['bigint'] if big else [])
     if depth > 0:
         kinds += ['array', 'tuple', 'struct'] * 3
     k = rnd.choice(kinds)
@@ -584,6 +645,16 @@ def rand_type(rnd, depth, open_strings=False):
     if k == 'int':
         lo = rnd.randint(-300, 300)
         return {'k': k, 'min': lo, 'max': lo + rnd.choice((0, 1, rnd.randint(0, 600)))}
+    if k == 'bigint':     # an int type with at least one limit beyond 2^53, declared exactly
+        ps = sorted((rnd.choice((-2, -1, 0, 1, 2, 3, 4)), rnd.randint(-3, 3)) for _ in range(2))
+        if all(a == 0 for a, _ in ps):
+            ps[1] = (rnd.choice((1, 2, 3, 4)), ps[1][1])
+        if ps[0][0] == -2:
+            ps[0] = (-2, abs(ps[0][1]))      # IntRange limits live in +-2^64
+        if ps[1][0] == 4:
+            ps[1] = (4, -abs(ps[1][1]))
+        ps.sort()
+        return {'k': k, 'min': {'a': ps[0][0], 'd': ps[0][1]}, 'max': {'a': ps[1][0], 'd': ps[1][1]}}
     if k == 'scaled':
         s = rnd.choice((1, 2, 4, 8, 16, 32, 64))
         a = rnd.randint(-200, 200)
@@ -604,11 +675,11 @@ def rand_type(rnd, depth, open_strings=False):
         return {'k': k, 'minb': lo, 'maxb': lo + rnd.randint(0 if lo else 1, 6)}
     if k == 'array':
         lo = rnd.randint(0, 2)
-        return {'k': k, 'el': rand_type(rnd, depth - 1, open_strings), 'minlen': lo, 'maxlen': lo + rnd.randint(0 if lo else 1, 3)}
+        return {'k': k, 'el': rand_type(rnd, depth - 1, open_strings, big), 'minlen': lo, 'maxlen': lo + rnd.randint(0 if lo else 1, 3)}
     if k == 'tuple':
-        return {'k': k, 'els': [rand_type(rnd, depth - 1, open_strings) for _ in range(rnd.randint(1, 3))]}
+        return {'k': k, 'els': [rand_type(rnd, depth - 1, open_strings, big) for _ in range(rnd.randint(1, 3))]}
     names = rnd.sample(['a', 'b', 'c'], rnd.randint(1, 3))
-    return {'k': 'struct', 'mem': [{'n': n, 't': rand_type(rnd, depth - 1, open_strings)} for n in sorted(names)],
+    return {'k': 'struct', 'mem': [{'n': n, 't': rand_type(rnd, depth - 1, open_strings, big)} for n in sorted(names)],
             'opt': sorted(n for n in names if rnd.random() < 0.5)}
 
 
@@ -638,6 +709,11 @@ def rand_value(rnd, dt, junk=0.2):
             return rnd.choice(WEIRD_NUM)
         n = rnd.choice((dt['min'], dt['max'], 0)) + rnd.randint(-2, 2)
         return rnd.choice((n, n, float(n), n + 0.5, str(n)))
+    if k == 'bigint':
+        if rnd.random() < 0.2:
+            return rnd.choice([x for x in WEIRD_NUM if isinstance(x, int)] + [1.5, math.nan, 1e308, '5'])
+        p = rnd.choice((dt['min'], dt['max'], {'a': rnd.choice((1, 2, 3)), 'd': 0}))
+        return pos_int(p['a'], p['d']) + rnd.randint(-2, 2)
     if k == 'scaled':
         if rnd.random() < 0.15:
             return rnd.choice(WEIRD_NUM)
@@ -700,6 +776,9 @@ def _valid_internal(rnd, dt, n=None):
         return {'j': 'num', 't': t, 'ix': False, 'w': t % U == 0}
     if k == 'int':
         return {'j': 'int', 'n': rnd.randint(dt['min'], dt['max'])}
+    if k == 'bigint':
+        lo, hi = pos_int(dt['min']['a'], dt['min']['d']), pos_int(dt['max']['a'], dt['max']['d'])
+        return bint_abs(rnd.choice((lo, hi, min(hi, lo + rnd.randint(0, 3)), max(lo, hi - rnd.randint(0, 3)))))
     if k == 'scaled':
         t = rnd.randint(dt['min'] // dt['scale'], dt['max'] // dt['scale']) * dt['scale']
         return {'j': 'num', 't': t, 'ix': False, 'w': t % U == 0}
@@ -746,6 +825,10 @@ def rand_valid(rnd, dt, obj):
         return float(rnd.choice(pool))
     if k == 'int':
         return rnd.choice((dt['min'], dt['max'], rnd.randint(dt['min'], dt['max'])))
+    if k == 'bigint':
+        lo, hi = pos_int(dt['min']['a'], dt['min']['d']), pos_int(dt['max']['a'], dt['max']['d'])
+        inside = [x for x in (2 ** 53 + 1, 10 ** 18 + 1, 2 ** 63 - 1, 2 ** 64 - 1, -(2 ** 63), 2 ** 53 - 1) if lo <= x <= hi]
+        return rnd.choice([lo, hi, min(hi, lo + rnd.randint(0, 3)), max(lo, hi - rnd.randint(0, 3))] + inside)
     if k == 'scaled':
         a, b = dt['min'] // dt['scale'], dt['max'] // dt['scale']
         return rnd.choice((a, b, rnd.randint(a, b))) * dt['scale'] / U
